@@ -226,6 +226,18 @@ func c13Gen(r *vfRand, i int, adv bool) *zz.In {
 		in.Reqs = zz.DefaultReqs(g, in.Kind, in.Doc)
 		return in
 	}
+	if !adv && i%7 == 3 {
+		// coverage of optional leaves: leaf number (i, seed rotated) of some kind present with an ordinary
+		// value inside a valid template, so that every branch an optional field enables is instantiated
+		plan := zz.AdvPlan()
+		it := plan[(i/7+int(vfSeed()%1000)*37)%len(plan)]
+		g.Plain = true
+		in.Cat, in.Kind = it.Cat, it.Kind
+		in.Doc = g.GenAdvDoc(it)
+		g.Plain = false
+		in.Reqs = zz.DefaultReqs(g, in.Kind, in.Doc)
+		return in
+	}
 	switch sel := i % 10; {
 	case sel < 7:
 		in.Cat = "filter"
